@@ -11,7 +11,35 @@ def _p(corpora, level='model_checking', rule='', assumptions=None):
     return {'corpora': corpora, 'level': level, 'rule': rule, 'assumptions': assumptions or MUX_ASSUME}
 
 
+def send_witness(ctx):
+    """C17 auto-trait clause: decided by rustc while building the witness binary (not by TLC)."""
+    import subprocess, os
+    env = dict(os.environ)
+    env['CARGO_NET_OFFLINE'] = 'true'
+    p = subprocess.run(['cargo', 'build', '--offline', '--bin', 'sendwitness'], cwd=ctx.harness_dir, env=env,
+                       stdout=subprocess.PIPE, stderr=subprocess.STDOUT, text=True)
+    if p.returncode != 0:
+        return [{'sig': ['C17', 'SendSync', 'rustc', 'does-not-compile'], 'detail': p.stdout[-3000:], 'inst': 0, 'ev': 0,
+                 'line': {'witness': 'harness/src/bin/sendwitness.rs', 'compiler_output': p.stdout[-3000:]}}]
+    return []
+
+
 PROPS = {
+    'C20': _p(lambda t: ['cli'],
+              rule='a case is an option record for the muxide binary (mux: valid baseline, every option varied on its own, seeded random combinations; validate: every pair of input classes; info: library-produced, damaged and random files); every one is non-trivial',
+              assumptions=['the option space is covered one factor at a time plus seeded random combinations, not as a full product', 'dry-run verdicts and stray audio parameters without audio input are not judged (TraceCli.tla, MuxUnclear)', 'unreadable (permission-denied) inputs are not exercised because the checks run as root']),
+    'C16': _p(lambda t: ['bound', 'boundfrag', 'av', 'layout', 'contract', 'fraginit'],
+              rule='a case is a boundary instance: timestamps are multiples of a unit U in {2^30, 2^31-1, 2^31, 2^32-1, 2^32} so that small multiples land just below / on / above the 32-bit limits of sample deltas, total durations and composition offsets; dimension / parameter-set / rate boundaries come from the layout and init-segment corpora; non-trivial when some derived quantity is within one step of a field boundary',
+              assumptions=['box sizes / chunk offsets around 4 GiB are out of reach of any execution in this sandbox and are not covered', 'values are compared through quotient/remainder w.r.t. the unit because TLC integers are 32-bit']),
+    'C12': _p(lambda t: ['extreme', 'extremefrag', 'mutbytes', 'mutframes', 'contract', 'reject', 'frag', 'fn14', 'meta'], level='exploration',
+              rule='a case is a (public item, input) pair: argument extremes and arbitrary f64 bit patterns for every entry point, every prefix and single-bit flip of generated bitstream headers, the exhaustive small-scope byte strings, all contract probes; non-trivial when the input is not the valid baseline',
+              assumptions=['small-scope exhaustion plus grammar-directed mutation, not a proof over all byte strings', 'the harness is built with overflow checks and debug assertions; a panic is caught with catch_unwind, a call that does not return within the watchdog limit is reported as a hang']),
+
+    'C17': dict(_p(lambda t: ['modes', 'conv'],
+              rule='a case is a (behaviour, execution mode) pair: the behaviour re-run on the same thread after other muxers, on a fresh thread, on 4 concurrent threads, into Vec / Cursor / BufWriter<File> / one-byte-at-a-time sinks, with the muxer moved to a new thread for every call, through the builder aliases, audio codec none, the three finish entry points, and the convenience calls vs. their explicit form; non-trivial when the mode differs from the baseline run',
+              assumptions=['determinism is observed, not proved: bounded behaviours x the listed modes', 'the clause Muxer<W>: Send for all W: Send (+ Sync) is decided by rustc on harness/src/bin/sendwitness.rs, not by TLC']),
+              pre=send_witness),
+
     'C18': _p(lambda t: ['meta', 'layout'],
               rule='a case is a metadata value (title bytes / Unix day + second of day / language code / presence combination) on a muxer run, each also compared with the metadata-free run of the same history; non-trivial when it differs from the empty metadata',
               assumptions=['dates are judged for 1970-01-01 .. 9999-12-31; larger creation times only for termination (C12)', 'the closed-form Civil() of Meta.tla is itself checked by TLC against the counting definition (MCMeta)', 'malformed language codes are not judged (only absence of panics)']),
